@@ -99,7 +99,7 @@ def params_strategy():
 def error_strategy():
     data = st.one_of(st.just({'absent': True}), st.just({'value': None}), st.builds(lambda v: {'value': v}, jg.json_value(8)))
     code = st.one_of(
-        st.sampled_from([0, 1, -1, -32700, -32600, -32601, -32602, -32603, -32000, -32050, -32099, 2001, 2002, 2003, 2004, 2005, 2005, 3001, 2**31, 10**30]),
+        st.sampled_from([0, 1, -1, -32700, -32600, -32601, -32602, -32603, -32000, -32050, -32099, 2001, 2002, 2003, 2004, 2005, 2005, 2006, 3001, 2**31, 10**30]),
         jg.integers(),
     )
     message = st.one_of(st.sampled_from(['', 'm', 'Method not found']), jg.strings())
@@ -384,10 +384,40 @@ class C05(Check):
         except Exception as e:
             discs.append(Disc(f"C05/{kind}/second-to_json-crash/{type(e).__name__}", str(e)[:300]))
 
+        # (3b) separately deserialised messages share nothing: after the application amended the first result's containers (params,
+        # result, error data), deserialising the same text again still yields the original message
+        if not discs:
+            self._scramble(back)
+            try:
+                fresh = loader(json.loads(texts['dumps(to_json)']))
+                for d in self._compare(kind, spec, fresh, ecn):
+                    discs.append(Disc(d.bucket.replace('C05/', 'C05/after-amending-an-earlier-result/', 1), d.detail))
+            except Exception as e:
+                discs.append(Disc(f"C05/after-amending-an-earlier-result/{type(e).__name__}", f"{e!r}"[:300]))
         nontrivial = bool(edges) or self._payload_nonscalar(expected) or (kind.startswith('batch_re') and len(expected) >= 2)
         return Outcome(discs, nontrivial, classes)
 
     # ---- helpers --------------------------------------------------------------------------------
+
+    @staticmethod
+    def _scramble(msg: Any) -> None:
+        """what application code (a middleware adding an argument, a handler annotating error data) may do to a deserialised message"""
+        def amend(v: Any) -> None:
+            if isinstance(v, list):
+                v.append('amended')
+            elif isinstance(v, dict):
+                v['amended'] = True
+        items = list(msg) if isinstance(msg, (pjrpc.BatchRequest, pjrpc.BatchResponse)) else [msg]
+        for m in items:
+            if isinstance(m, pjrpc.Request):
+                amend(m.params)
+            elif isinstance(m, pjrpc.Response):
+                if m.is_success:
+                    amend(m.result)
+                elif m.error is not UNSET and m.error.data is not UNSET:
+                    amend(m.error.data)
+            elif isinstance(m, JsonRpcError) and m.data is not UNSET:
+                amend(m.data)
 
     @staticmethod
     def _payload_nonscalar(w: Any) -> bool:
